@@ -203,4 +203,54 @@ timestamp reads as 0xFFFFFFFF: only the last lap/session was handled and every e
 def allConcealedAtEnd (last : Nat) (ms : List Message) : Bool :=
   last != 0 && (lastRevealed last ms).isNone
 
+/-! ### reducer by RDP, with the simplifier's contract; combiner -/
+
+def isSublistNat : List Nat → List Nat → Bool
+  | [], _ => true
+  | _ :: _, [] => false
+  | a :: as, b :: bs => if a == b then isSublistNat as bs else isSublistNat (a :: as) bs
+
+/-- what `reduceByRDP` must return when the simplifier answers with a sublist of the points it was given: every
+non-record, and exactly the records whose point the simplifier kept (a record without a valid position has no point) -/
+def rdpExpected (simplified : List Nat) (ms : List Message) : List Message :=
+  (ms.zipIdx.filter fun p => !isRecord p.1 || simplified.contains p.2).map (·.1)
+
+/-- the messages of each input that belong to the body of the combined activity, inputs in creation-time order: the
+first file without its session/activity/sport/split_summary messages, the later ones also without file_id/file_creator -/
+def bodyInputs (fits : List (List Message)) : List (List Message) :=
+  match sortByCreation (fits.filter (!·.isEmpty)) with
+  | [] => []
+  | f0 :: rest => (f0.filter fun m => !isTrailerNum m.num) ::
+      rest.map fun f => f.filter fun m => !isTrailerNum m.num && !(m.num == mnFileId || m.num == mnFileCreator)
+
+def hasAccFlag (f : Field) : Bool := match f.base with | some b => b.accumulate | none => false
+
+/-- the message with the values of its accumulable fields blanked -/
+def blankAcc (m : Message) : Message :=
+  { m with fields := m.fields.map fun f => if hasAccFlag f then { f with value := .invalid } else f }
+
+/-- last valid accumulable value of the key in a file -/
+def lastIn (mn fn : Nat) (file : List Message) : Option Value :=
+  ((file.filter (·.num == mn)).flatMap fun m => (m.fields.filter fun f => accumulable f && fieldNumOf f == fn).map (·.value)).getLast?
+
+/-- `v` plus the last values of the key in the earlier files (those that have it) -/
+def continueAcc (earlier : List (List Message)) (mn : Nat) (f : Field) : Option Field :=
+  if !accumulable f then some f else
+  (earlier.foldl (fun acc file => match acc, lastIn mn (fieldNumOf f) file with
+      | some v, some l => sumValue v l
+      | some v, none => some v
+      | none, _ => none) (some f.value)).map fun v => { f with value := v }
+
+/-- the body `Combine` must produce: every message of every input in creation-time order, accumulated quantities
+continued across the file boundaries (`out = in + Σ last values of the earlier files`); `none` = a float accumulable -/
+def expectedBody (fits : List (List Message)) : Option (List Message) :=
+  let ins := bodyInputs fits
+  let rec go : List (List Message) → List (List Message) → Option (List Message)
+    | _, [] => some []
+    | earlier, file :: rest =>
+      match file.mapM (fun m => (m.fields.mapM (continueAcc earlier m.num)).map fun fs => { m with fields := fs }), go (earlier ++ [file]) rest with
+      | some a, some b => some (a ++ b)
+      | _, _ => none
+  go [] ins
+
 end Fit.Activity
